@@ -163,6 +163,8 @@ def gen_case(rng, owned):
             o = g.op("loop", dict(env))
             if o[0] in ("ap", "rm", "rmv", "av", "dc", "at") and owned:
                 o = ("len", o[1])
+            if o[0] in ("rmv", "rm") or (o[0] == "scan" and not owned):
+                o = ("len", o[1])     # per-pass tokens are static: no data-dependent forms in a loop whose sizes drift
             loop.append(o)
     return setup, loop
 
@@ -262,7 +264,16 @@ def run(ctx: Ctx) -> int:
             continue
         if san is not None:
             forms = {o[0] for o in setup + loop}
-            key = "heap:list-copy-semantics" if ({"dc", "av"} & forms) else "heap:memory-error"
+            # the transpile-time copy of a list is only approximated after remove(<run-time value>) (it pops the FIRST tracked
+            # element); a further remove then leaves a stale folded len(): that chain is the recorded finding K09c
+            after_rmv = diverged = False
+            for o in setup:
+                if o[0] in ("rm", "rmv") and after_rmv:
+                    diverged = True
+                if o[0] == "rmv":
+                    after_rmv = True
+            key = ("heap:list-copy-semantics" if ({"dc", "av"} & forms) else
+                   "heap:stale-length-after-runtime-remove" if (diverged and "scan" in forms) else "heap:memory-error")
             ctx.fail(key, f"memory error in firmware ({san}) although Python runs without IndexError: {res.stderr[:300]}", replay)
             continue
         printed = []
